@@ -1,6 +1,7 @@
 import GwbVerif.Properties.C06
 import GwbVerif.Properties.C06Walk
 import GwbVerif.Properties.C06Arc
+import GwbVerif.Properties.C06WalkArc
 open Gwb
 #print axioms C06_membership_iff
 #print axioms C06_covers_iff_pretest
@@ -35,6 +36,13 @@ open Gwb
 #print axioms C06_arc_dip_above_pi_rejected
 #print axioms C06_arc_polar_exhaustive
 #print axioms C06_arc_piece_full_false
+#print axioms C06_walk_accept_iff
+#print axioms C06_walk_selects_min_mixed
+#print axioms C06_walk_along_eq_mixed
+#print axioms C06_walk_joint_straight_arc
+#print axioms C06_walk_joint_arc_arc
+#print axioms C06_walk_stale_value_old_step
+#print axioms C06_walk_old_step_safe
 #check @C06_membership_iff
 #check @C06_covers_iff_pretest
 #check @C06_covers_iff
@@ -68,3 +76,10 @@ open Gwb
 #check @C06_arc_dip_above_pi_rejected
 #check @C06_arc_polar_exhaustive
 #check @C06_arc_piece_full_false
+#check @C06_walk_accept_iff
+#check @C06_walk_selects_min_mixed
+#check @C06_walk_along_eq_mixed
+#check @C06_walk_joint_straight_arc
+#check @C06_walk_joint_arc_arc
+#check @C06_walk_stale_value_old_step
+#check @C06_walk_old_step_safe
